@@ -17,7 +17,7 @@ class PreludeMixin:
                 'float', 'bool', 'isinstance', 'all', 'any', 'zip', 'enumerate', 'reversed', 'sum', 'abs',
                 'getattr', 'pow', 'iter', 'next', 'type', 'repr', 'print', 'frozenset', 'hasattr'}
     SPEC_BUILTINS = {'vec_le', 'vec_ge', 'vec_lt', 'vec_eq', 'vec_zero', 'dom', 'is_none', 'to_real', 'length',
-                     'keys_subset', 'str_to_int', 'alive', 'in_prefix', 'name_of', 'str_of', 'clock_now', 'eps', 'rdiv', 'fs_kind', 'fs_target', 'path', 'dict_put', 'dict_del', 'set_put', 'set_del', 'counter_inc', 'is_digits', 'select', 'strlen', 'cls_is', 'distinct_list'}
+                     'keys_subset', 'str_to_int', 'alive', 'in_prefix', 'name_of', 'str_of', 'clock_now', 'eps', 'rdiv', 'is_int', 'ext', 'fs_kind', 'fs_target', 'path', 'dict_put', 'dict_del', 'set_put', 'set_del', 'counter_inc', 'is_digits', 'select', 'strlen', 'cls_is', 'distinct_list'}
     LIB_CONSTS = {'errno.ENOENT': 2, 'errno.EEXIST': 17, 'errno.EINVAL': 22, 'sys.maxsize': 9223372036854775807, 'np.inf': INF, 'numpy.inf': INF, 'math.inf': INF}
     LIB_MODULES_ALIAS = {}
     LIB_MODULES = {'six.moves', 'os.path', 'six.moves.urllib', 'np.random'}
@@ -1072,6 +1072,10 @@ class PreludeMixin:
             return ops.counter_add(args[0], args[1], lift(args[2], KInt).z)
         if name in ('fs_kind', 'fs_target', 'path'):
             return self.fs_spec(st, name, args)
+        if name == 'ext':
+            return SVal(KExtReal, [asz(truthy(args[0])), ops.coerce(lift(args[1]), KReal).z])
+        if name == 'is_int':
+            return SB(z3.IsInt(ops.coerce(lift(args[0]), KReal).z))
         if name == 'rdiv':
             return SR(ops.real_div(ops.coerce(lift(args[0]), KReal).z, ops.coerce(lift(args[1]), KReal).z))
         if name == 'eps':
